@@ -854,18 +854,20 @@ func c08content(c *an.Ctx) {
 	}
 	info := f.Info()
 	var lit *an.Fn
+	var litValue ast.Expr
+	var envScopePos token.Pos // where a receiver literal loads Runtime.scope into the environment
 	an.InspectOwn(f, func(n ast.Node) bool {
 		as, ok := n.(*ast.AssignStmt)
-		if !ok || len(as.Lhs) != 1 || p.FieldKey(info, as.Lhs[0]) != "Runtime.content" {
+		if !ok || len(as.Lhs) != 1 || len(as.Rhs) != 1 || p.FieldKey(info, as.Lhs[0]) != "Runtime.content" {
 			return true
 		}
-		if fl, ok := an.Unparen(as.Rhs[0]).(*ast.FuncLit); ok {
-			lit = p.FnByLit[fl]
+		if g := p.FnOfValue(info, as.Rhs[0]); g != nil && g.Body != nil {
+			lit, litValue = g, an.Unparen(as.Rhs[0])
 		}
 		return true
 	})
 	if lit == nil {
-		c.Anchor("C08.content", "function literal stored in Runtime.content")
+		c.Anchor("C08.content", "function stored in Runtime.content")
 		return
 	}
 	c.FnsAnalysed[lit.Name] = true
@@ -884,6 +886,50 @@ func c08content(c *an.Ctx) {
 		})
 		return true
 	})
+	// a method value `(&T{scope: st.scope, content: mycontent}).execute` carries the same environment in
+	// the fields of its receiver: inside the method they are read as <receiver>.<field>
+	if sel, ok := litValue.(*ast.SelectorExpr); ok && lit.Decl != nil && lit.Sig != nil && lit.Sig.Recv() != nil {
+		recv := an.Unparen(sel.X)
+		if u, ok := recv.(*ast.UnaryExpr); ok && u.Op == token.AND {
+			recv = an.Unparen(u.X)
+		}
+		if id, ok := recv.(*ast.Ident); ok {
+			for _, d := range an.LocalDefs(f, an.ObjOf(info, id)) {
+				if d == nil {
+					continue
+				}
+				d = an.Unparen(d)
+				if u, ok := d.(*ast.UnaryExpr); ok && u.Op == token.AND {
+					d = an.Unparen(u.X)
+				}
+				recv = d
+			}
+		}
+		if cl, ok := recv.(*ast.CompositeLit); ok {
+			rname := an.RoleOf(lit.Sig.Recv())
+			for _, el := range cl.Elts {
+				kv, ok := el.(*ast.KeyValueExpr)
+				if !ok {
+					continue
+				}
+				k, ok := kv.Key.(*ast.Ident)
+				if !ok {
+					continue
+				}
+				switch {
+				case p.FieldKey(info, kv.Value) == "Runtime.scope":
+					captured[rname+"."+k.Name] = "scope"
+					envScopePos = kv.Value.Pos()
+				case p.FieldKey(info, kv.Value) == "Runtime.content":
+					captured[rname+"."+k.Name] = "content"
+				default:
+					if id, ok := an.Unparen(kv.Value).(*ast.Ident); ok && captured[id.Name] != "" {
+						captured[rname+"."+k.Name] = captured[id.Name]
+					}
+				}
+			}
+		}
+	}
 	fields := []string{"scope", "content"}
 	type res struct {
 		bad bool
@@ -973,7 +1019,7 @@ func c08content(c *an.Ctx) {
 		})
 		pr := p.ProbeFn(f, bodyCalls, an.Hooks{PreAssign: func(x *an.Explorer, lhs, rhs ast.Expr, stmt ast.Node, st *an.State) {
 			if p.FieldKey(info, lhs) == "Runtime.content" && rhs != nil {
-				if _, isLit := an.Unparen(rhs).(*ast.FuncLit); isLit {
+				if p.FnOfValue(info, rhs) == lit {
 					st.Set("installed", "1")
 				}
 			}
@@ -1007,6 +1053,9 @@ func c08content(c *an.Ctx) {
 		})
 		return true
 	})
+	if envScopePos.IsValid() {
+		capPos = envScopePos
+	}
 	c.Check(pushPos.IsValid() && capPos.IsValid() && pushPos < capPos, "C08.content", "(*Runtime).executeYieldBlock/capture-after-push", f.Pos(),
 		"the caller scope captured for the content includes the parameter scope push order (captured after newScope)", "the scope captured for `yield content` is loaded before the parameter scope is pushed")
 }
